@@ -83,6 +83,9 @@ def positive(draw, knob=None):
     elif knob == "bracket_code":
         value = domain.code(draw(st.sampled_from(("(1, 2)", "[1, 2]", "[]", "{'a': 1}", "(np, tf)"))))
     prose = draw(domain.prose(punct=draw(st.booleans())))
+    if knob is None and draw(st.integers(0, 4)) == 0:
+        # prose that mentions the word without announcing a value; the real sentence must still be written and read
+        prose = "%s %s" % (prose, draw(st.sampled_from(("by default", "the default one", "default behaviour", "non-default values"))))
     trailing = None
     if knob == "trailing_text" or (knob == "bracket_code" and draw(st.booleans())):
         trailing = " ".join(draw(st.lists(st.sampled_from(domain.WORDS), min_size=2, max_size=4))).capitalize()
@@ -187,6 +190,8 @@ def case_tags(case):
         t.add("trailing_text")
     if not case["prose"]:
         t.add("col0")
+    if "default" in case["prose"].lower():
+        t.add("default_word_in_prose")
     return t
 
 
